@@ -242,6 +242,12 @@ func VerifC05_Nested() {
 	} else {
 		fsys.files["outer.vuego"] = `<div class="outer"><template include="c.vuego" a="x-{{ oa }}" :b="ob"></template>{oa={{ oa }}}</div>`
 	}
+	// the outer component may also include a component that takes no props
+	// and has no front-matter (its scope stays empty)
+	if zzBool("bareInner") {
+		fsys.files["bare.vuego"] = `<i>bare</i>`
+		fsys.files["outer.vuego"] = strings.Replace(fsys.files["outer.vuego"], `{oa=`, `<template include="bare.vuego"></template>{oa=`, 1)
+	}
 	tpl := NewFS(fsys)
 	pre := "x-"
 	if bound {
@@ -254,13 +260,13 @@ func VerifC05_Nested() {
 	var wants []string
 	switch mode {
 	case 0: // side by side
-		body = `<div><template include="outer.vuego" oa="first" :ob="n1"></template><template include="outer.vuego" oa="second" :ob="s2"></template></div>`
+		body = `<div><template include="outer.vuego" oa="first" :ob="n1"></template><template include="outer.vuego" oa="second" :ob="s2"></template><u>after:{{ oa }}|{{ ob }}</u></div>`
 		wants = []string{inner("first", "1", "int"), inner("second", "two", "string")}
 	case 1: // in a loop
-		body = `<div><p v-for="it in rows"><template include="outer.vuego" :oa="it.name" :ob="it.v"></template></p></div>`
+		body = `<div><p v-for="it in rows"><template include="outer.vuego" :oa="it.name" :ob="it.v"></template></p><u>after:{{ oa }}|{{ ob }}</u></div>`
 		wants = []string{inner("r1", "1", "int"), inner("r2", "two", "string")}
 	case 2: // two renders on the same engine
-		body = `<div><template include="outer.vuego" :oa="who" :ob="val"></template></div>`
+		body = `<div><template include="outer.vuego" :oa="who" :ob="val"></template><u>after:{{ oa }}|{{ ob }}</u></div>`
 	}
 	data := map[string]any{"inc": "INC", "n1": 1, "s2": "two",
 		"rows": []any{map[string]any{"name": "r1", "v": 1}, map[string]any{"name": "r2", "v": "two"}}}
@@ -272,6 +278,7 @@ func VerifC05_Nested() {
 			zzNote("want", w)
 			zzAssert(strings.Contains(out, w), "C05.nested.inner-sees-own-outer-props")
 		}
+		zzAssert(strings.Contains(out, "<u>after:|</u>"), "C05.nested.nothing-leaks-back")
 		return
 	}
 	data["who"], data["val"] = "alice", 1
@@ -282,4 +289,5 @@ func VerifC05_Nested() {
 	zzAssert(err1 == nil && err2 == nil, "C05.nested.render-error")
 	zzAssert(strings.Contains(out1, inner("alice", "1", "int")), "C05.nested.first-render")
 	zzAssert(strings.Contains(out2, inner("bob", "two", "string")), "C05.nested.second-render-sees-own-props")
+	zzAssert(strings.Contains(out1, "<u>after:|</u>") && strings.Contains(out2, "<u>after:|</u>"), "C05.nested.nothing-leaks-back")
 }
